@@ -4,8 +4,10 @@ import (
 	"fmt"
 	"os"
 	"os/signal"
+	"runtime"
 	"strconv"
 	"syscall"
+	"time"
 
 	"verifharness/core"
 	"verifharness/menv"
@@ -43,6 +45,22 @@ func main() {
 	sig := make(chan os.Signal, 1)
 	signal.Notify(sig, syscall.SIGINT, syscall.SIGTERM)
 	go func() { <-sig; core.Cleanup(); os.Exit(130) }()
+	// last line of defence against a run that never ends (a hang inside the code under monitoring or
+	// a library below it): generous, and its firing is not a verdict on the property
+	wd := 30 * time.Minute
+	if tier == "thorough" {
+		wd = 150 * time.Minute
+	}
+	if v, err := strconv.Atoi(os.Getenv("VERIF_WATCHDOG_MIN")); err == nil && v > 0 {
+		wd = time.Duration(v) * time.Minute
+	}
+	time.AfterFunc(wd, func() {
+		buf := make([]byte, 1<<24)
+		os.Stderr.Write(buf[:runtime.Stack(buf, true)])
+		fmt.Printf("INCONCLUSIVE property=%s the run did not end within %v (goroutine dump in the run log)\n", id, wd)
+		core.Cleanup()
+		os.Exit(4)
+	})
 	r := core.Start(id, tier, seed, p.Level)
 	p.Run(r)
 	if n := menv.Loads.Load(); n > 0 {
